@@ -302,14 +302,19 @@ mod imp {
         /// take one event from the suspended / running producer: a node or the end of the operation
         fn pump(&mut self) -> Option<BddNode> {
             select! {
-                recv(self.node_rx) -> m => {
-                    let m = m.expect("producer alive");
-                    self.log.push(m);
-                    Some(m)
-                }
+                recv(self.node_rx) -> m => match m {
+                    Ok(m) => {
+                        self.log.push(m);
+                        Some(m)
+                    }
+                    Err(_) => {
+                        // producer thread gone: report, never wait again
+                        self.finish(Reply::Panic);
+                        None
+                    }
+                },
                 recv(self.reply_rx) -> r => {
-                    let r = r.expect("producer alive");
-                    self.finish(r);
+                    self.finish(r.unwrap_or(Reply::Panic));
                     None
                 }
             }
@@ -344,8 +349,10 @@ mod imp {
 
         fn ask(&mut self, c: Cmd) -> Reply {
             self.join();
-            self.cmd_tx.send(c).expect("producer alive");
-            self.reply_rx.recv().expect("producer alive")
+            if self.cmd_tx.send(c).is_err() {
+                return Reply::Panic;
+            }
+            self.reply_rx.recv().unwrap_or(Reply::Panic)
         }
     }
 
@@ -415,10 +422,12 @@ mod imp {
                     match ws[0] {
                         "screate" => {
                             s.join();
-                            s.cmd_tx
-                                .send(Cmd::Op(ws[1..].iter().map(|x| x.to_string()).collect()))
-                                .expect("producer alive");
-                            s.inflight = true;
+                            let sent = s.cmd_tx.send(Cmd::Op(ws[1..].iter().map(|x| x.to_string()).collect()));
+                            if sent.is_ok() {
+                                s.inflight = true;
+                            } else {
+                                s.finish(Reply::Panic);
+                            }
                         }
                         "sdeliver" if ws.len() == 2 => match ws[1].parse::<usize>() {
                             Ok(k) => {
